@@ -740,6 +740,7 @@ func (h *StreamableHTTPHandler) serveStatefulPOST(w http.ResponseWriter, req *ht
 		sessInfo.timer = time.AfterFunc(sessInfo.timeout, func() {
 			sessInfo.session.Close()
 		})
+		verifTimerCreated(h, sessInfo.timer) // no-op unless built with the "verif" tag
 	}
 	h.mu.Lock()
 	h.sessions[transport.SessionID] = sessInfo
